@@ -454,7 +454,7 @@ def run(ctx):
     for case, (R, M) in zip(corpus, evaluate(corpus, ctx.driver_ok)):
         case["stratum"] = "corpus"
         judge_case(ctx, case, R, M)
-    n = int(os.environ.get("VERIF_N") or ctx.n(500, 8000))
+    n = int(os.environ.get("VERIF_N") or ctx.n(500, 30000))
     if not ctx.proof_ok:
         n = max(n, 3000)
         ctx.notes.append("proof side broken: widened search")
@@ -466,6 +466,45 @@ def run(ctx):
         done += len(cases)
         if len(ctx.violations) > 20:
             break
+    shrink_violation(ctx)
+
+
+def shrink_violation(ctx):
+    from vlib.framework import Ctx, canon
+
+    vs = [v for v in ctx.violations if isinstance(v.get("case"), dict) and "content" in v["case"]]
+    if not vs:
+        return
+    v0 = min(vs, key=lambda v: len(canon(v)))
+    what = v0.get("what")
+    last = {}
+
+    def still_fails(case):
+        c = dict(case)
+        if any("name" not in f for f in all_fns(c["content"])):
+            return False
+        c["bad"] = [f["name"] for f in all_fns(c["content"]) if f.get("bad")]
+        nv = len(c["content"]["vars"])
+        qs = []
+        for q in c.get("queries") or []:      # states must fit the shrunk variable list
+            if q[0] == "call" and len(q[2]) != nv:
+                continue
+            if q[0] in ("args", "fluxes", "rhs", "stoich") and q[1] is not None and [k for k, _ in q[1]] != [k for k, _ in c["content"]["vars"]]:
+                continue
+            qs.append(q)
+        c["queries"] = qs or cc.standard_queries(random.Random(0), c["content"], n_states=1)
+        tmp = Ctx(ctx.prop, ctx.tier, ctx.seed)
+        (R, M), = evaluate([c], ctx.driver_ok)
+        judge_case(tmp, c, R, M)
+        hit = [v for v in tmp.violations if v.get("what") == what]
+        if hit:
+            last["v"] = min(hit, key=lambda v: len(canon(v)))
+        return bool(hit)
+
+    small, spent = cg.shrink(v0["case"], still_fails)
+    ctx.extra_cov["shrink"] = {"evaluations": spent, "from_bytes": len(canon(v0["case"])), "to_bytes": len(canon(small))}
+    if "v" in last and len(canon(last["v"])) < len(canon(v0)):
+        ctx.violations.append(dict(last["v"], shrunk_from=len(canon(v0["case"]))))
 
 
 def replay(ctx, rp):
